@@ -5,6 +5,7 @@
 //! file is replaced by a stub that makes every dependent theorem fail loudly, and the
 //! failure is listed in <out-dir>/translate_report.json).
 mod ir;
+mod phyio;
 mod statics;
 mod tables;
 mod tr;
@@ -60,6 +61,12 @@ pub enum Sel {
     /// builder L: a statement kept abstract in the following functions: (needle in its source text,
     /// Lean function declared by a `Raw` item, expressions it reads, variables it writes)
     AbstractStmt(&'static str, &'static str, &'static [&'static str], &'static [&'static str]),
+    /// builder O: register everything another unit (listed in `imports`) emits — enums, structs, constants,
+    /// functions with their fallibility — without emitting it again
+    ExternUnit(&'static str),
+    /// builder O: switch the I/O mode (phyio.rs) for the following functions: `-> Result<_, RadioError>`
+    /// functions become actions of `Rt.Phy.IoM` (SPI transfers as a value)
+    IoMode(bool),
 }
 
 pub struct Unit {
@@ -516,6 +523,19 @@ fn translate_unit(repo: &Path, u: &Unit, reg: &mut Registry) -> Res<String> {
                 writeln!(out, "  deriving DecidableEq, Repr\n").unwrap();
                 reg.enums.insert(name.to_string(), units);
                 reg.enum_data.insert(name.to_string(), datas);
+            }
+            Sel::ExternUnit(m) => {
+                let u2 = units::units().into_iter().find(|x| x.module == *m).ok_or(format!("ExternUnit: no unit {}", m))?;
+                let was = reg.io.borrow().mode;
+                reg.io.borrow_mut().mode = false;
+                let r = translate_unit(repo, &u2, reg);
+                reg.io.borrow_mut().mode = was;
+                reg.files = Some(files.clone());
+                reg.helpers.borrow_mut().clear();
+                r.map_err(|e| format!("ExternUnit {}: {}", m, e))?;
+            }
+            Sel::IoMode(on) => {
+                reg.io.borrow_mut().mode = *on;
             }
             Sel::AbstractStmt(needle, lean, reads, writes) => {
                 reg.abstract_stmts.push((needle.to_string(), lean.to_string(), reads.iter().map(|s| s.to_string()).collect(), writes.iter().map(|s| s.to_string()).collect()));
